@@ -74,6 +74,7 @@ func newSolver(kind string, timeoutMs int, logPath string) *solver {
 		s.log, _ = os.Create(logPath)
 	}
 	if s.cvc5 {
+		s.send("(set-option :produce-models true)")
 		s.send("(set-logic QF_BV)")
 	}
 	for _, d := range solverDecls() {
